@@ -7,7 +7,8 @@ package utils
 // generator moves past them (ids are never handed out twice); a namespace that is
 // added gets every shard GenerateShards produced, with that shard's hash range, so its
 // shards cover the hash space exactly once (GenerateShards is proved to partition it),
-// each with the ensemble the supplier returned without error.
+// each with an ensemble the supplier returned without error (of replication-factor
+// size: ensemble.Select is proved to return exactly that many distinct servers).
 //
 //@ func ApplyClusterChanges(config, currentStatus, ensembleSupplier) (newStatus, shardsToAdd, shardsToDelete)
 //@ property C18 C19
@@ -15,6 +16,7 @@ package utils
 //@ requires 0 <= currentStatus.ShardIdGenerator && currentStatus.ShardIdGenerator < 1099511627776 && len(config.Namespaces) <= 65536
 //@ requires forall i int :: 0 <= i && i < len(config.Namespaces) ==> 1 <= config.Namespaces[i].InitialShardCount && config.Namespaces[i].InitialShardCount <= 65536 && (config.Namespaces[i].InitialShardCount-1) * (4294967295/config.Namespaces[i].InitialShardCount + 1) <= 4294967295
 //@ callback ensembleSupplier pure
+//@ callback ensembleSupplier ensures result1 == nil ==> len(result0) == namespaceConfig.ReplicationFactor
 //@ loop 0 modifies fresh
 //@ loop 0 invariant newStatus.ShardIdGenerator == old(currentStatus.ShardIdGenerator) && newStatus.Namespaces != nil && fresh(newStatus.Namespaces)
 //@ loop 1 modifies fresh
@@ -26,6 +28,7 @@ package utils
 //@ loop 2 invariant newStatus.ShardIdGenerator == rangeslice[0].Id && len(rangeslice) == nc.InitialShardCount
 //@ loop 2 invariant forall j int :: 0 <= j && j < len(rangeslice) ==> rangeslice[j].Id == newStatus.ShardIdGenerator + j
 //@ loop 2 invariant forall j int :: 0 <= j && j <= rangeindex ==> inmap(nss.Shards, newStatus.ShardIdGenerator + j) && nss.Shards[newStatus.ShardIdGenerator + j].Int32HashRange.Min == rangeslice[j].Min && nss.Shards[newStatus.ShardIdGenerator + j].Int32HashRange.Max == rangeslice[j].Max
+//@ loop 2 invariant forall j int :: 0 <= j && j <= rangeindex ==> len(nss.Shards[newStatus.ShardIdGenerator + j].Ensemble) == nc.ReplicationFactor
 //@ loop 2 invariant forall id int64 :: inmap(nss.Shards, id) ==> newStatus.ShardIdGenerator <= id && id < newStatus.ShardIdGenerator + nc.InitialShardCount
 //@ loop 2 invariant forall id int64 :: inmap(shardsToAdd, id) ==> old(currentStatus.ShardIdGenerator) <= id && id < newStatus.ShardIdGenerator
 //@ loop 3 modifies fresh
